@@ -485,6 +485,20 @@ class Binding(object):
             if binding.log is not None:
                 binding.log({"ev": "resolver_start", "type": typename, "field": fieldname,
                              "path": list(info.path), "kwargs": kwargs})
+            if submits and f.type[0] == "list" and len(fieldname) % 2:
+                # a per-request loader: one task per *distinct* item, equal items share the task (the very same
+                # future then sits at several positions of what is gathered)
+                value = binding._finish(obj, f, kwargs, info)
+                if isinstance(value, list) and value:
+                    tasks = {}
+                    futures = []
+                    for item in value:
+                        key = repr(item)
+                        if key not in tasks:
+                            tasks[key] = info.runtime.submit(lambda item=item: item)
+                        futures.append(tasks[key])
+                    return info.runtime.gather_values(futures)
+                return value
             if submits:
                 # the resolver's own result is whatever the runtime hands back for a submitted task
                 # (a value, a concurrent future, an asyncio future)
